@@ -298,8 +298,14 @@ impl KnownWord {
     /// Computes the signed right shift of `self` by `rhs`.
     #[must_use]
     pub fn sar(self, rhs: Self) -> Self {
-        // We need the value to be signed to make it an arithmetic shift
-        let result = self.value_le_signed() >> rhs.value_le();
+        // We need the value to be signed to make it an arithmetic shift. A shift by the
+        // word size or more leaves only copies of the sign bit.
+        let shift = if rhs.value_le() >= U256::new(256) {
+            255
+        } else {
+            rhs.value_le().as_u32()
+        };
+        let result = self.value_le_signed() >> shift;
 
         // We are already LE, but need to turn it back into the unsigned internal rep
         KnownWord::from_le_signed(result)
@@ -414,7 +420,11 @@ impl std::ops::Shl<KnownWord> for KnownWord {
 
     /// Computes the left shift of `self` by `rhs`.
     fn shl(self, rhs: KnownWord) -> Self::Output {
-        KnownWord::from_le(self.value_le() << rhs.value_le())
+        // Shifting by the word size or more shifts every bit out
+        if rhs.value_le() >= U256::new(256) {
+            return KnownWord::zero();
+        }
+        KnownWord::from_le(self.value_le() << rhs.value_le().as_u32())
     }
 }
 
@@ -423,7 +433,11 @@ impl std::ops::Shr<KnownWord> for KnownWord {
 
     /// Computes the unsigned right shift of `self` by `rhs`.
     fn shr(self, rhs: KnownWord) -> Self::Output {
-        KnownWord::from_le(self.value_le() >> rhs.value_le())
+        // Shifting by the word size or more shifts every bit out
+        if rhs.value_le() >= U256::new(256) {
+            return KnownWord::zero();
+        }
+        KnownWord::from_le(self.value_le() >> rhs.value_le().as_u32())
     }
 }
 
